@@ -1,4 +1,5 @@
 import Rtsp.Model.Ntp
+import Rtsp.Model.F64
 /-
 Model of the NTP/RTP time mapping carried by RTCP sender reports:
 
@@ -13,61 +14,16 @@ range assumed, see props/C15.json).
     rtpTime := rs.lastRTP + uint32(systemDiff.Seconds()*float64(rs.ClockRate))
     Seconds():  sec := d / Second; nsec := d % Second; return float64(sec) + float64(nsec)/1e9
 
-The *theorems* (Props/C15) treat the truncated product as an input `e` constrained by a hypothesis
-(`reportWith`); the *executable* model computes it with a small exact model of IEEE-754 binary64
-round-to-nearest-even on positive rationals (`F64`), so that the correspondence harness compares
-the real float path with the model bit for bit, and checks the hypothesis on every case.
+The central theorem (`packet_ntp_within_tick`, Props/C15) treats the truncated product as an input `e`
+constrained by a hypothesis (`reportWith`).  The *executable* model computes it with a small exact model
+of IEEE-754 binary64 round-to-nearest-even on non-negative rationals (`F64`), so that the correspondence
+harness compares the real float path with the model bit for bit and checks the hypothesis on every
+case; for that model the hypothesis is itself a theorem (`Proofs/F64.lean`: every rounding has relative
+error ≤ 2^-53, integers below 2^53 convert exactly, hence `ticks d rate` is `⌊d·rate/10^9⌋` up to less than
+1 ns of time for `d ≤ 2^51 ns`), which gives the hypothesis-free `packet_ntp_within_tick_report`.
 
 Core Lean only (linked into `oracle_time`).
 -/
-namespace Rtsp.F64
-
-/-- a non-negative finite double, as the exact rational `num / den` (`den` a power of two). -/
-structure F where
-  num : Nat
-  den : Nat
-deriving Repr, DecidableEq
-
-/-- `2^e ≤ p / q` (for `q > 0`), with the power moved to the side where it is a natural number -/
-def geExp (p q : Nat) (e : Int) : Bool :=
-  if e ≥ 0 then q * 2 ^ e.toNat ≤ p else q ≤ p * 2 ^ (-e).toNat
-
-/-- the binary exponent of `p / q`: `2^e ≤ p/q < 2^(e+1)`.  `log2 p - log2 q` is right or one too big. -/
-def expo (p q : Nat) : Int :=
-  let k : Int := (p.log2 : Int) - (q.log2 : Int)
-  if geExp p q k then k else k - 1
-
-/-- round `p / q` to a 53-bit significand at binary exponent `e` (`2^e ≤ p/q < 2^(e+1)`), ties to even:
-the significand is `p/q · 2^(52-e) ∈ [2^52, 2^53)` rounded to an integer. -/
-def roundAt (p q : Nat) (e : Int) : F :=
-  let sh : Int := 52 - e
-  let P := if sh ≥ 0 then p * 2 ^ sh.toNat else p
-  let Q := if sh ≥ 0 then q else q * 2 ^ (-sh).toNat
-  let m := P / Q
-  let r := P % Q
-  let m' := if 2 * r > Q ∨ (2 * r = Q ∧ m % 2 = 1) then m + 1 else m
-  if sh ≥ 0 then ⟨m', 2 ^ sh.toNat⟩ else ⟨m' * 2 ^ (-sh).toNat, 1⟩
-
-/-- round the positive rational `p / q` to the nearest binary64 (53-bit significand, ties to even).
-Exponent range is not modelled (all values here are between 2^-31 and 2^64). -/
-def roundQ (p q : Nat) : F :=
-  if p = 0 ∨ q = 0 then ⟨0, 1⟩ else roundAt p q (expo p q)
-
-def ofNat (n : Nat) : F := roundQ n 1
-def add (a b : F) : F := roundQ (a.num * b.den + b.num * a.den) (a.den * b.den)
-def mul (a b : F) : F := roundQ (a.num * b.num) (a.den * b.den)
-def div (a b : F) : F := roundQ (a.num * b.den) (a.den * b.num)
-/-- truncation towards zero (`uint32(x)` / `int64(x)` of a non-negative float) -/
-def trunc (a : F) : Nat := a.num / a.den
-
-/-- `time.Duration(d).Seconds()` for `d ≥ 0` -/
-def seconds (d : Nat) : F := add (ofNat (d / 1000000000)) (div (ofNat (d % 1000000000)) (ofNat 1000000000))
-
-/-- `int64(systemDiff.Seconds()*float64(rate))` for `d ≥ 0`, `rate ≥ 0` -/
-def ticks (d rate : Nat) : Nat := trunc (mul (seconds d) (ofNat rate))
-
-end Rtsp.F64
-
 namespace Rtsp.SR
 open Rtsp
 
